@@ -380,9 +380,13 @@ def _judge(op, plan, info, before, run, tmpdir: Path, tag: str) -> list[Fail]:
     after = snapshot(info)
     diff = _diff(before, after)
     if diff:
-        feats = "+".join(sorted(diff))
+        # coarse, root-cause oriented bucket: Griffe's own temporary branch / worktree registration left behind, vs. anything else
+        temp_left = any(x.startswith("refs/heads/griffe-") for x in diff.get("branches", {}).get("added", ())) or any(
+            "griffe-worktree-" in x for x in diff.get("worktrees", {}).get("added", ())
+        )
+        feats = "temp-branch-or-worktree-left" if temp_left and set(diff) <= {"branches", "worktrees"} else "+".join(sorted(diff))
         cause = "force-inspection" if plan["force"] else "static"
-        fails.append(Fail("repo-unchanged", f"{feats}[{cause},{'ok' if run['outcome'] == 'ok' else 'failed-op'}]", f"{what}: repository changed: {diff}; git calls: {run['trace']}", diff))
+        fails.append(Fail("repo-unchanged", f"{feats}[{cause}]", f"{what}: repository changed: {diff}; git calls: {run['trace']}", diff))
     left = sorted(p.name for p in tmpdir.iterdir() if p.name.startswith("griffe-worktree-"))
     if left:
         fails.append(Fail("no-temp-left", "worktree-dir-left", f"{what}: temporary checkout left behind in the temp dir: {left[:3]}"))
@@ -423,7 +427,8 @@ def check_case(case) -> list[Fail]:
                 if dry["hooks"] > 0 and not f0:
                     ext_k = fault["k"] % dry["hooks"]
             elif fault:
-                sub_plan = fault
+                # load_git runs exactly two git commands before the worktree body (rev-parse, worktree add); check runs 2-5
+                sub_plan = {**fault, "i": fault["i"] % 2} if op["op"] == "load_git" else fault
             if not fault or ext_k is not None or sub_plan is not None:
                 before = snapshot(info)
                 run = _execute(op, plan, info, case, tmpdir, ext_k, sub_plan)
@@ -431,7 +436,7 @@ def check_case(case) -> list[Fail]:
                 if ext_k is not None:
                     tag = f"{fault['type']} at hook call {ext_k}/{runs[0][1]['hooks']}"
                 elif sub_plan is not None:
-                    tag = f"{fault['type']} at git call {fault['i']}" + ("" if run["sub_injected"] else " (not reached)")
+                    tag = f"{fault['type']} at git call {sub_plan['i']}" + ("" if run["sub_injected"] else " (not reached)")
                 f1 = _judge(op, plan, info, before, run, tmpdir, tag)
                 fails += f1
                 runs.append(("main", run, f1))
@@ -491,6 +496,9 @@ def _case_classes(case) -> list[str]:
 
 
 def strategy(ctx):
+    global _BASE
+    if _BASE is None:
+        _BASE = ctx.tmp  # also used by the runner's shrink worker, whose scratch dir is removed by ctx.cleanup()
     return G.strategy(), "c20"
 
 
@@ -509,4 +517,4 @@ def run_shard(ctx) -> None:
         return key, [*classes, *_case_classes(case)], samples
 
     strat, salt = strategy(ctx)
-    ctx.run_hypothesis(strat, check_case, max_examples=ctx.scale(40, 1500), describe=describe, salt=salt)
+    ctx.run_hypothesis(strat, check_case, max_examples=ctx.scale(24, 1200), describe=describe, salt=salt)
